@@ -69,3 +69,26 @@ const (
 
 // VerifSetFinalMode sets mw.FinalMode from a plain integer.
 func VerifSetFinalMode(mw *meta.Writer, f int) { mw.FinalMode = meta.FinalMode(f) }
+
+// VerifTraceFn, when set, observes every call the Writer makes to its DEFLATE
+// compressor: the event ("zwrite", "zflush", "zreset"), the number of bytes the
+// compressor accepted, the number of bytes it handed to the underlying writer
+// during the call, and the error it returned. Not safe for concurrent Writers.
+var VerifTraceFn func(ev string, n, emitted int64, err error)
+
+func verifTrace(ev string, n, emitted int64, err error) {
+	if VerifTraceFn != nil {
+		VerifTraceFn(ev, n, emitted, err)
+	}
+}
+
+// VerifWriterState returns the Writer's pending index records and counters.
+func (xw *Writer) VerifWriterState() (recs []VerifRecord, backSize, zwIn, zwOut int64) {
+	for _, r := range xw.idx.Records {
+		recs = append(recs, VerifRecord{r.CompOffset, r.RawOffset, r.Type})
+	}
+	if xw.zw != nil {
+		zwIn, zwOut = xw.zw.InputOffset, xw.zw.OutputOffset
+	}
+	return recs, xw.idx.BackSize, zwIn, zwOut
+}
